@@ -17,7 +17,9 @@ CASE_TYPE = "C08.Corr.case"
 RUNNER = "C08.Corr.run"
 FINDING_CLASSES = {1: "C08-F1"}
 RULE = ("seeded random metadata worlds (1-3 sources, 1-3 SPs, 0-2 IdPs, 1-3 endpoints per service and binding, "
-        "entities repeated across sources, ResponseLocation, duplicate / missing / non-numeric indexes, endpoints "
+        "entities repeated across sources with other endpoints / bindings / role (at least one in every second "
+        "world; histogram repeated_entity counts the lookups where a later source has what the first lacks), "
+        "ResponseLocation, duplicate / missing / non-numeric indexes, endpoints "
         "shared between bindings and between SPs, DiscoveryResponse extensions) rendered by templates and loaded by "
         "the real MetadataStore; on the focus SP of 6 worlds the COMPLETE product AssertionConsumerServiceURL(7: "
         "absent, empty, registered for the binding, for another binding, for another SP, unregistered, look-alike) "
@@ -162,10 +164,13 @@ def gen_world(rng, wid, n_idp=None):
         if rng.random() < 0.12:
             descs.insert(0, gen_sp_descriptor(rng, host, False, pool))
         ents.append({"id": eid, "descs": descs})
-    # variants of some entities for a later source (fall-through of MetadataStore.service)
+    # variants of some entities for another source: the same entityID with other endpoints / bindings / role.
+    # MetadataStore.service (since d8b1d2a4) and with_descriptor (since 18964551) answer from the first source that
+    # has the entity, ext_service still falls through; every second world has at least one repeated entity
     variants = []
-    for e in ents:
-        if rng.random() < 0.35:
+    forced = rng.randrange(len(ents)) if wid % 2 == 0 else -1
+    for k, e in enumerate(ents):
+        if rng.random() < 0.35 or k == forced:
             host = e["id"].split("/")[2] + "/v2"
             if e["descs"][0]["role"] == "spsso_descriptor" and rng.random() < 0.8:
                 variants.append({"id": e["id"], "descs": [gen_sp_descriptor(rng, host, False, pool)]})
@@ -723,10 +728,101 @@ def nontrivial(case, obs):
     return key
 
 
+def sources_with(w, eid):
+    """the entity records of eid, one per source that has it, in load order"""
+    return [x for s in w["sources"] for x in s["ents"] if x["id"] == eid]
+
+
+def served(x, role, svc):
+    """bindings entity record x lists for (role, service); None when it has no descriptor of that role"""
+    ds = [d for d in x["descs"] if d["role"] == role]
+    if not ds:
+        return None
+    return sorted({e["b"] for d in ds for s, e in d["eps"] if s == svc})
+
+
+ROLE_SVC = {"sso": ("idpsso_descriptor", "single_sign_on_service"),
+            "negotiate": ("idpsso_descriptor", "single_sign_on_service"),
+            "authenticate": ("idpsso_descriptor", "single_sign_on_service"),
+            "logout": ("idpsso_descriptor", "single_logout_service")}
+ANSWER_SVC = {"AuthnRequest": "assertion_consumer_service", "LogoutRequest": "single_logout_service",
+              "ManageNameIDRequest": "manage_name_id_service"}
+
+
+def lookups(case):
+    """(entity, role, service) triples the operation looks up in the store (generator-side bookkeeping only)"""
+    op = case["op"]
+    k = op["k"]
+    if k == "answer":
+        svc = ANSWER_SVC.get(op["cls"])
+        if svc is None:
+            return []
+        descr = op["descr"] or ("idpsso" if op["etype"] == "sp" else "spsso")
+        role = "spsso_descriptor" if svc == "assertion_consumer_service" else descr + "_descriptor"
+        return [(op["issuer"].strip(), role, svc)]
+    if k == "pick":
+        descr = op["descr"] or ("idpsso" if op["etype"] == "sp" else "spsso")
+        role = ("spsso_descriptor" if op["svc"] == "assertion_consumer_service" else
+                "idpsso_descriptor" if op["svc"] == "single_sign_on_service" else descr + "_descriptor")
+        return [(op["eid"], role, op["svc"])]
+    if k == "logout":
+        return [(e, ) + ROLE_SVC[k] for e in op["eids"]]
+    if k in ROLE_SVC:
+        return [(op["eid"], ) + ROLE_SVC[k]] if op["eid"] else []
+    if k == "disco":
+        return [(op["eid"], "spsso_descriptor", "disco")]
+    return []
+
+
+def repeat_class(case):
+    """how the looked-up entity is spread over the sources: None (not repeated), 'same' (the later sources list
+    nothing the first does not), 'later-has-more' (a later source has a binding / the role that the first source
+    with the entity lacks: exactly where fall-through and first-source-wins differ)"""
+    w = case["world"]
+    cls = None
+    for eid, role, svc in lookups(case):
+        recs = sources_with(w, eid)
+        if len(recs) < 2:
+            continue
+        cls = cls or "same"
+        if svc == "disco":
+            f = lambda x: (None if not any(d["role"] == role for d in x["descs"]) else
+                           sorted({l for d in x["descs"] if d["role"] == role for b, l in d["disco"] if b == D}))
+        else:
+            f = lambda x: served(x, role, svc)
+        first = f(recs[0])
+        for x in recs[1:]:
+            later = f(x)
+            if later and (first is None or set(later) - set(first)):
+                cls = "later-has-more"
+    return cls
+
+
 def histogram(cases, observed):
     h = {"by_tag": {}, "by_kind": {}, "outcomes": {}, "exceptions": {}, "worlds": len({c["world"]["wid"] for c in cases}),
-         "dest_by_binding": {}}
+         "dest_by_binding": {}, "repeated_entity": {}}
+    seen_w = {}
+    for c in cases:
+        seen_w[c["world"]["wid"]] = c["world"]
+    rep_w = 0
+    rep_diff = 0
+    for w in seen_w.values():
+        ids = [x["id"] for s in w["sources"] for x in s["ents"]]
+        reps = {i for i in ids if ids.count(i) > 1}
+        if reps:
+            rep_w += 1
+        # same entityID in two sources with a different set of (role, service, binding, location)
+        for i in reps:
+            sig = [sorted((d["role"], s, e["b"], e["l"]) for d in x["descs"] for s, e in d["eps"]) for x in sources_with(w, i)]
+            if any(g != sig[0] for g in sig[1:]):
+                rep_diff += 1
+    h["repeated_entity"]["worlds_with_entity_in_two_sources"] = rep_w
+    h["repeated_entity"]["entities_in_two_sources_with_different_endpoints"] = rep_diff
     for c, o in zip(cases, observed):
+        rc = repeat_class(c)
+        if rc:
+            key = "%s/%s" % (c["op"]["k"], rc)
+            h["repeated_entity"][key] = h["repeated_entity"].get(key, 0) + 1
         t = c["tag"] if not c["tag"].startswith("authn:") else "authn-alphabet"
         h["by_tag"][t] = h["by_tag"].get(t, 0) + 1
         k = c["op"]["k"]
